@@ -42,10 +42,11 @@ type c19cScenario struct {
 	read    string // lastmap | stateA | stateB | statePolicy (State of the network policy key) | policy (LastNetworkPolicy)
 	clean   int    // limit of cleanRemoved
 	writer  bool   // with the writer thread (otherwise reader || merger only)
+	reads   int    // consecutive reads of the reader (1 or 2)
 }
 
 func (c c19cScenario) id() string {
-	return fmt.Sprintf("%s|initial=%s|merged=%d|next=%c|writer=%v|read=%s|clean=%d", c.name, c.initial, c.merged, c.next, c.writer, c.read, c.clean)
+	return fmt.Sprintf("%s|initial=%s|merged=%d|next=%c|writer=%v|read=%dx%s|clean=%d", c.name, c.initial, c.merged, c.next, c.writer, c.reads, c.read, c.clean)
 }
 
 type c19cRead struct {
@@ -187,7 +188,7 @@ func c19cBuild(env *vfEnv, c c19cScenario) vsched.Scenario {
 	}
 
 	reader := func() {
-		for i := 0; i < 2; i++ {
+		for i := 0; i < c.reads; i++ {
 			vsched.Point("reader", nil)
 
 			r := c19cRead{call: o.tick()}
@@ -259,7 +260,7 @@ func c19cBuild(env *vfEnv, c c19cScenario) vsched.Scenario {
 				return fail("merge-error", o.mergeErr.Error())
 			case o.cleanErr != nil:
 				return fail("clean-error", o.cleanErr.Error())
-			case len(o.reads) != 2:
+			case len(o.reads) != c.reads:
 				return fail("reader-did-not-finish", "")
 			}
 
@@ -287,9 +288,11 @@ func c19cBuild(env *vfEnv, c c19cScenario) vsched.Scenario {
 				}
 			}
 
-			if h0, h1 := c19cHeightOf(o.reads[0].answer), c19cHeightOf(o.reads[1].answer); h1 < h0 ||
-				(o.reads[0].answer != vfNotFound && o.reads[1].answer == vfNotFound) {
-				return fail("read-went-back", fmt.Sprintf("first read %s, second read %s", o.reads[0].answer, o.reads[1].answer))
+			if c.reads > 1 {
+				if h0, h1 := c19cHeightOf(o.reads[0].answer), c19cHeightOf(o.reads[1].answer); h1 < h0 ||
+					(o.reads[0].answer != vfNotFound && o.reads[1].answer == vfNotFound) {
+					return fail("read-went-back", fmt.Sprintf("first read %s, second read %s", o.reads[0].answer, o.reads[1].answer))
+				}
 			}
 
 			// quiescence: everything agrees with the model after the run
@@ -325,48 +328,47 @@ func TestVerifC19S(t *testing.T) {
 
 	var cfgs []c19cScenario
 
-	for _, clean := range []int{3, 0} {
-		// reader || merger || writer: the answer changes while the oldest temp moves
-		for _, read := range []string{"lastmap", "stateA"} {
-			cfgs = append(cfgs, c19cScenario{name: "two-temps", initial: "GS", next: 'S', read: read, clean: clean, writer: true})
-
-			if clean == 0 || r.Thorough() {
-				cfgs = append(cfgs, c19cScenario{name: "perm+two-temps", initial: "GSS", merged: 1, next: 'S', read: read, clean: clean, writer: true})
-			}
-		}
-
-		// reader || merger: the key is only in the temp that moves (network policy state: only in G; B: only in block 1)
-		cfgs = append(cfgs,
-			c19cScenario{name: "two-temps", initial: "GS", next: 'S', read: "statePolicy", clean: clean},
-			c19cScenario{name: "two-temps", initial: "GO", next: 'S', read: "stateA", clean: clean},
-			c19cScenario{name: "perm+two-temps", initial: "GSO", merged: 1, next: 'S', read: "stateB", clean: clean},
-			c19cScenario{name: "perm+two-temps", initial: "GSP", merged: 1, next: 'S', read: "stateA", clean: clean},
-		)
-
-		if r.Thorough() {
-			cfgs = append(cfgs,
-				c19cScenario{name: "two-temps-policy", initial: "GP", next: 'P', read: "lastmap", clean: clean, writer: true},
-				c19cScenario{name: "two-temps-policy", initial: "GP", next: 'P', read: "policy", clean: clean, writer: true},
-				c19cScenario{name: "perm+three-temps", initial: "GSPS", merged: 1, next: 'S', read: "lastmap", clean: clean},
-				c19cScenario{name: "perm+three-temps", initial: "GSPS", merged: 1, next: 'S', read: "stateA", clean: clean},
-				c19cScenario{name: "two-temps", initial: "GS", next: 'S', read: "stateB", clean: clean, writer: true},
-				c19cScenario{name: "two-temps", initial: "GS", next: 'S', read: "statePolicy", clean: clean, writer: true},
-			)
-		}
+	add := func(name, initial string, merged int, read string, reads, clean int, writer bool) {
+		cfgs = append(cfgs, c19cScenario{name: name, initial: initial, merged: merged, next: 'S', read: read, reads: reads, clean: clean, writer: writer})
 	}
 
-	r.Rule("per scenario (initial chain x kind of the new block x kind of read x cleanRemoved limit x with/without writer) every interleaving of reader (2 reads) || merger (mergePermanent; cleanRemoved) [|| writer (MergeBlockWriteDatabase)] and of the job goroutines Center.dig / the permanent merge spawn, within the preemption bound; non-trivial = a scenario in which more than one read outcome class was observed")
+	for _, clean := range []int{3, 0} {
+		// reader || merger || writer: the answer changes while the oldest temp moves (two reads: never back)
+		add("two-temps", "GS", 0, "lastmap", 2, clean, true)
+
+		// reader || merger: the key is only in the temp that moves (network policy state: only in G; B: only in block 1),
+		// or its newest value is (A: older value in the permanent database)
+		add("two-temps", "GS", 0, "statePolicy", 1, clean, false)
+		add("perm+two-temps", "GSP", 1, "stateA", 1, clean, false)
+
+		if !r.Thorough() {
+			continue
+		}
+
+		add("perm+two-temps", "GSS", 1, "lastmap", 2, clean, true)
+		add("two-temps", "GS", 0, "stateA", 2, clean, true)
+		add("two-temps", "GS", 0, "statePolicy", 2, clean, false)
+		add("two-temps", "GO", 0, "stateA", 2, clean, false)
+		add("perm+two-temps", "GSO", 1, "stateB", 2, clean, false)
+		add("perm+two-temps", "GSP", 1, "stateA", 2, clean, false)
+		add("perm+three-temps", "GSPS", 1, "lastmap", 2, clean, false)
+
+		cfgs = append(cfgs,
+			c19cScenario{name: "two-temps-policy", initial: "GP", next: 'P', read: "lastmap", reads: 2, clean: clean, writer: true},
+			c19cScenario{name: "two-temps-policy", initial: "GP", next: 'P', read: "policy", reads: 2, clean: clean, writer: true},
+		)
+	}
+
+	r.Rule("per scenario (initial chain x kind of the new block x kind of read x cleanRemoved limit x with/without writer) every interleaving of reader (1 or 2 reads) || merger (mergePermanent; cleanRemoved) [|| writer (MergeBlockWriteDatabase)] and of the job goroutines Center.dig / the permanent merge spawn, within the preemption bound (every shard explores a disjoint set of first-level subtrees of every scenario); non-trivial = a scenario in which more than one read outcome class was observed")
 	r.Assume("goleveldb, gcache and zerolog run as atomic steps of the calling thread; state caches are off (their map-ordered traversal would make the schedule depend on Go's map order); data races are invisible to the cooperative scheduler")
 	r.Set("preemption_bound", bound)
 	r.Set("scenarios_enumerated", len(cfgs))
 
 	_ = base.NilHeight
 
-	for i, c := range cfgs {
-		if !r.Mine(i) || r.Expired() {
-			continue
-		}
+	sh, nsh := r.Shard()
 
+	for i, c := range cfgs {
 		c := c
 		id := c.id()
 		build := func() vsched.Scenario { return c19cBuild(env, c) }
@@ -388,7 +390,13 @@ func TestVerifC19S(t *testing.T) {
 			continue
 		}
 
-		res := vsched.Explore(vsched.Config{Name: id, Bound: bound, Build: build, Expired: r.Expired, MaxFound: 2, Horizon: 20000})
+		if r.Expired() {
+			continue
+		}
+
+		// every shard explores every scenario, each a disjoint set of first-level subtrees
+		res := vsched.Explore(vsched.Config{Name: id, Bound: bound, Build: build, Expired: r.Expired, MaxFound: 2, Horizon: 20000,
+			Mine: func(l int) bool { return nsh <= 1 || l%nsh == sh }, Secondary: sh != 0})
 		if res.EngineError != "" {
 			panic("engine error in " + id + ": " + res.EngineError)
 		}
@@ -396,7 +404,9 @@ func TestVerifC19S(t *testing.T) {
 		r.TraceN(res.Executions)
 		r.TransitionN(res.Points)
 		r.EvalN(res.Executions)
-		r.Add("scenarios", 1)
+		if sh == 0 {
+			r.Add("scenarios", 1)
+		}
 
 		if res.Capped != "" {
 			r.Cap(res.Capped)
@@ -419,6 +429,8 @@ func TestVerifC19S(t *testing.T) {
 			r.Violation(id+"#"+vsched.ChoicesString(f.Choices), f.Fail.Sig, f.Fail.Detail+fmt.Sprintf(" (preemptions=%d)", f.Preempt), nil)
 		}
 
-		r.Sample(map[string]any{"scenario": id, "executions": res.Executions, "outcomes": res.Outcomes})
+		if sh == 0 && i < 4 {
+			r.Sample(map[string]any{"scenario": id, "executions_of_shard_0": res.Executions, "outcomes": res.Outcomes})
+		}
 	}
 }
